@@ -152,7 +152,9 @@ def run_mutants(mutants, root, props, jobs=16):
 
 def implemented_props():
     d = os.path.join(VERIF, 'sa', 'rules')
-    return sorted(fn[:-3].upper() for fn in os.listdir(d) if fn.startswith('c') and fn[1:3].isdigit() and fn.endswith('.py'))
+    import re
+
+    return sorted(fn[:-3].upper() for fn in os.listdir(d) if re.fullmatch(r'c\d\d\.py', fn))
 
 
 def main(args) -> int:
